@@ -175,10 +175,7 @@ ASSUME_NORAISE = {
 # emitted in which the statement is assumed not to raise; `all_disciplined_guarded` is about those. The unguarded
 # script stays in `scripts` (and in the exemption list of `all_disciplined_partial`); the raising path itself is
 # covered by the oracle and the trace correspondence only.
-GUARDED_SITES = {
-    ('cssutils/css/cssstylesheet.py', 'insertRule', 'self._cleanNamespaces()'):
-        'insert, clean, on rejection delete the inserted rule again by identity (cssstylesheet.py:815-826)',
-}
+GUARDED_SITES = {}      # none needed on the current tree (was: insertRule's _cleanNamespaces(), before fix 2293ec0)
 # fields that no public query reads (so a change is not an observable change), with the reason
 UNOBSERVABLE_FIELDS = {
     'Property': {'__nametoken': 'only used as position for log messages (property.py:228-238, 506-533)'},
